@@ -47,6 +47,29 @@ fn ser(n: &web_sys::Node, ids: bool) -> String {
     s
 }
 
+/// structured dump in document order: `E<id>:<tag hex>:<name=value hex,...>` ... `e`, `T<id>:<data hex>`, `C<id>:<data hex>`
+fn dump(n: &web_sys::Node, out: &mut Vec<String>) {
+    for c in n.child_nodes_vec() {
+        match c.node_type() {
+            web_sys::Node::ELEMENT_NODE => {
+                let e = c.unchecked_ref::<web_sys::Element>();
+                let attrs: Vec<String> = c.data().attrs.borrow().iter().map(|(k, v)| format!("{}={}", hex(k), hex(v))).collect();
+                out.push(format!("E{}:{}:{}", c.id(), hex(&e.local_name()), attrs.join(",")));
+                dump(&c, out);
+                out.push("e".to_string());
+            }
+            web_sys::Node::TEXT_NODE => out.push(format!("T{}:{}", c.id(), hex(&c.data().data.borrow()))),
+            web_sys::Node::COMMENT_NODE => out.push(format!("C{}:{}", c.id(), hex(&c.data().data.borrow()))),
+            _ => dump(&c, out),
+        }
+    }
+}
+fn dump_str(n: &web_sys::Node) -> String {
+    let mut v = Vec::new();
+    dump(n, &mut v);
+    v.join(" ")
+}
+
 fn fresh_render(view: &VSpec, sig_spec: &Sx, ops: &[Sx]) -> String {
     // a second root: the same view built from scratch at the current state
     let mount = new_mount();
@@ -59,7 +82,7 @@ fn fresh_render(view: &VSpec, sig_spec: &Sx, ops: &[Sx]) -> String {
         let m: web_sys::Node = mount.clone().into();
         render_in_scope(|| build(view, &sigs, None), &m);
         wasm_bindgen::run_microtasks();
-        out = ser(&m, false);
+        out = dump_str(&m);
     });
     root.dispose();
     let _ = document().body().unwrap().remove_child(&mount);
@@ -71,12 +94,14 @@ fn fresh_render(view: &VSpec, sig_spec: &Sx, ops: &[Sx]) -> String {
 fn state_line(mount: &web_sys::Node, view: &VSpec, sig_spec: &Sx, applied: &[Sx]) -> String {
     let muts = web_sys::take_mutations();
     let warns = web_sys::take_warnings();
-    let dom = ser(mount, true);
+    let dom = ser(mount, false);
+    let nodes = dump_str(mount);
     let fresh = fresh_render(view, sig_spec, applied);
     format!(
-        "dom {} ; fresh {} ; mut {} ; warn {}",
+        "dom {} ; fresh {} ; nodes {} ; mut {} ; warn {}",
         hex(&dom),
-        hex(&fresh),
+        fresh,
+        nodes,
         muts.iter().map(|(o, n, p)| format!("{o}:{n}:{p}")).collect::<Vec<_>>().join(" "),
         warns.len()
     )
@@ -92,7 +117,7 @@ fn run_view(l: &[Sx], hydrate_html: Option<String>) -> Vec<String> {
     let mut out = Vec::new();
     if let Some(html) = &hydrate_html {
         mount.set_inner_html(html);
-        out.push(format!("pre {}", hex(&ser(&mnode, true))));
+        out.push(format!("pre {} ; nodes {}", hex(&ser(&mnode, true)), dump_str(&mnode)));
     }
     web_sys::take_mutations();
     let mut sigs_slot = None;
